@@ -132,13 +132,15 @@ def build(T, layout, mode, divs, key):
     return parts_collection(split_rows(pdf, layout), divisions, key=("C36", key, list(layout), mode))
 
 
-def observe(coll, whole):
-    """Every partition computed through its own key -> observation; optionally compute() of the whole."""
+def observe(coll, whole, ordered=True):
+    """Every partition computed through its own key -> observation; optionally compute() of the whole (ordered=False:
+    the whole is compared as a multiset - after a hash shuffle the order of the rows is not promised)."""
     parts = partitions_of(coll)
     obs = dict(tables_concat([table_of(p) for p in parts]), raised="", wholeok=True)
     if whole:
         w = table_of(coll.compute(scheduler="sync"))
-        obs["wholeok"] = [(r["idx"], r["v"]) for r in w["rows"]] == [(r["idx"], r["v"]) for r in obs["rows"]] and w["cols"] == obs["cols"]
+        a, b = [(r["idx"], r["v"]) for r in w["rows"]], [(r["idx"], r["v"]) for r in obs["rows"]]
+        obs["wholeok"] = (a == b if ordered else sorted(a) == sorted(b)) and w["cols"] == obs["cols"]
     return obs
 
 
@@ -166,7 +168,7 @@ def run_item(item):
     if fam == "unary":
         def go():
             x = build(item["T"], item["layout"], item["mode"], item.get("divs"), ("u", item["src"]))
-            return observe(apply_op(x, op, lazy=True, idxmode=item.get("idxmode", "series")), item.get("whole", False))
+            return observe(apply_op(x, op, lazy=True), item.get("whole", False))
         obs = guarded(go)
         if "skip" in obs:
             return obs
@@ -176,7 +178,7 @@ def run_item(item):
     def go2():
         x = build(item["T"], item["layout"], item["mode"], item.get("divs"), ("l", item["src"]))
         y = build(item["T2"], item["layout2"], item["mode"], item.get("divs2"), ("r", item["src2"]))
-        return observe(apply_op(x, op, lazy=True, G=y), item.get("whole", False))
+        return observe(apply_op(x, op, lazy=True, G=y), item.get("whole", False), ordered=item["mode"] != "unknown")
     obs = guarded(go2)
     if "skip" in obs:
         return obs
@@ -212,7 +214,7 @@ def _work(item):
 def expr_feats(x, out):
     if not isinstance(x, dict):
         return
-    if x.get("e") == "idx":
+    if x.get("e") == "idx":            # the bare index (an array), not index.to_series()
         out.add("index-expr")
     for k in ("l", "r", "x", "p"):
         if k in x:
@@ -227,9 +229,44 @@ def expr_head(x):
     return e
 
 
+def has_expr(op, kind):
+    """The operation contains a sub-expression of the given kind."""
+    def walk(x):
+        return isinstance(x, dict) and (x.get("e") == kind or any(walk(x[k]) for k in ("l", "r", "x", "p") if k in x))
+    return any(walk(op[f]) for f in ("x", "p") if f in op)
+
+
+def steps_of(item):
+    """The program an item stands for, as a list of single operations."""
+    op = item["op"]
+    if "prog" in item:
+        return item["prog"]["steps"][:item["upto"]]
+    return [op["first"], op["second"]] if op["op"] == "seq" else [op]
+
+
+def op_tag(op):
+    """Operation kind plus the class of the expression at its top: the call site inside dask."""
+    k = op["op"]
+    if k == "seq":
+        return "%s->%s" % (op_tag(op["first"]), op_tag(op["second"]))
+    head = expr_head(op["x"]) if "x" in op else expr_head(op["p"]) if "p" in op else ""
+    return k + ("(%s)" % head if head else "")
+
+
+def uses_column(op):
+    """The operation selects a single column of its input (a Projection with a scalar column)."""
+    def walk(x):
+        return isinstance(x, dict) and (x.get("e") == "col" or any(walk(x[k]) for k in ("l", "r", "x", "p") if k in x))
+    return any(walk(op[f]) for f in ("x", "p") if f in op)
+
+
+def dup_labels(idx):
+    return {x for x in idx if idx.count(x) > 1}
+
+
 def classify(item, clauses):
-    """Input class / call site: operation, the expression class at its top, structural features of the
-    input that select a code path, and the group of the failing clause."""
+    """Input class / call site of a violation: the operation (and the expression class at its top), the structural
+    features of the input that select a code path in dask, and the group of the failing clause - never the numbers."""
     op = item["op"]
     k = op["op"]
     cs = set(clauses)
@@ -239,28 +276,47 @@ def classify(item, clauses):
     for f in ("x", "p"):
         if f in op:
             expr_feats(op[f], feats)
-    if "index-expr" in feats and item.get("idxmode") == "raw":
-        feats.add("raw-index")
-    feats.discard("index-expr")
     if item["fam"] == "unary":
-        head = expr_head(op["x"]) if "x" in op else expr_head(op["p"]) if "p" in op else ""
-        if k == "loc" and op["a"] != NA and op["b"] != NA and op["a"] > op["b"]:
-            feats.add("reversed")
+        steps = steps_of(item)
+        # comparisons on a dask Index yield a dask Array; everything downstream of that array is one input class
+        if any(has_expr(o, "idx") for o in steps):
+            return "unary:raw-index-array:%s" % group
+        # a row filter followed by a step that reads index.to_series() of the filtered frame, on duplicate labels
+        src_idx = [r["idx"] for r in (item["prog"]["T"] if "prog" in item else item["T"])["rows"]]
+        if dup_labels(src_idx) and any(o["op"] in ("filter", "sfilter") and any(has_expr(later, "idxs") for later in steps[i + 1:])
+                                       for i, o in enumerate(steps[:-1])):
+            return "pipeline:filter-then-index-series:duplicate-labels:%s" % group
+        extra = []
+        if k == "loc":
+            extra.append("full-slice" if op["a"] == NA and op["b"] == NA else
+                         "reversed" if (op["a"] != NA and op["b"] != NA and op["a"] > op["b"]) else "ordered")
+        if "prog" in item and item["upto"] > 1 and extra[:1] not in (["full-slice"], ["reversed"]):
+            steps = item["prog"]["steps"][:item["upto"]]
+            # a frame-wide where / mask followed by the selection of ONE of its columns is the program `fmapcol`
+            for i, st in enumerate(steps[:-1]):
+                if st["op"] == "fmap" and st["x"]["e"] in ("where", "mask") and group == "raised" and \
+                        any(uses_column(later) for later in steps[i + 1:]):
+                    return "unary:fmapcol(%s):raised" % st["x"]["e"]
+            # a pipeline step is optimized together with its prefix: the call site is the pair (previous step, step)
+            return "pipeline:%s->%s:%s" % (op_tag(steps[-2]), op_tag(op), group)
         if k in ("head", "tail") and 0 in item["layout"]:
-            feats.add("empty-partition")
-        if not item["T"]["rows"]:
-            feats.add("no-rows")
-        return ":".join(["unary", k] + ([head] if head else []) + sorted(feats) + [group])
+            extra.append("empty-partition")
+        return ":".join(["unary", op_tag(op)] + extra + [group])
     li = [r["idx"] for r in item["T"]["rows"]]
     ri = [r["idx"] for r in item["T2"]["rows"]]
-    feats.add("same-index" if li == ri else "different-index")
+    cls = "binop" if k in ("abin", "afbin") else k[1:]
     if item["mode"] == "unknown":
-        feats.add("unknown-divisions")
-    elif len(item["layout"]) == 1 and len(item["layout2"]) == 1:
-        feats.add("single-partitions")
-    if li != ri and (len(set(li)) < len(li) and len(set(ri)) < len(ri)) and set(x for x in li if li.count(x) > 1) & set(x for x in ri if ri.count(x) > 1):
-        feats.add("shared-duplicate-label")
-    return ":".join(["aligned", k] + sorted(feats) + [group])
+        # binary operators assume partition-wise alignment; filter / assign / where align through a hash shuffle.  With
+        # duplicate labels no label-based alignment can reproduce pandas (identical indexes are combined positionally)
+        if dup_labels(li) or dup_labels(ri):
+            return "aligned:unknown-divisions:duplicate-labels:%s" % group
+        return "aligned:%s:unknown-divisions:%s" % (cls, group)
+    if len(item["layout"]) == 1 and len(item["layout2"]) == 1 and group == "raised" and li != ri:
+        return "aligned:%s:single-partitions:different-divisions:raised" % cls
+    extra = ["same-index" if li == ri else "different-index"]
+    if li != ri and dup_labels(li) & dup_labels(ri):
+        extra.append("shared-duplicate-label")
+    return ":".join(["aligned", cls] + extra + [group])
 
 
 # ----------------------------------------------------------------------------- TLC verdicts
@@ -270,8 +326,11 @@ class Pool:
     def __init__(self):
         self.uniq, self.members = {}, {}
 
-    def add(self, rec, item):
-        key = json.dumps({k: (({kk: vv for kk, vv in rec[k].items() if kk != "msg"}) if k == "obs" else rec[k]) for k in JUDGED}, sort_keys=True)
+    def add(self, rec, item, tag=""):
+        body = {k: (({kk: vv for kk, vv in rec[k].items() if kk != "msg"}) if k == "obs" else rec[k]) for k in JUDGED}
+        if tag:
+            body["tag"] = tag          # selftest: records of different mutants are never pooled
+        key = json.dumps(body, sort_keys=True)
         uid = self.uniq.setdefault(key, "u%d" % len(self.uniq))
         self.members.setdefault(uid, []).append((rec, item))
 
@@ -334,15 +393,14 @@ def make_items(ctx, tables, enum, per_pair, n_lops, per_apair):
     for cc, e in enum["ops"]:
         k = cc["src"]
         T = tables[k - 1]
-        for j in range(per_pair):
-            mode = ["unknown", "known", "from_pandas", "unknown"][j % 4] if j < 4 else rng.choice(["unknown", "known", "from_pandas"])
+        reps = per_pair * (3 if cc["op"]["op"] == "loc" else 1)      # label slices take different paths for known / unknown divisions
+        for j in range(reps):
+            mode = ["unknown", "known", "from_pandas", "known"][j % 4] if j < 8 else rng.choice(["unknown", "known", "from_pandas"])
             lay, known, divs = pick_layout(k, mode == "known")
             if mode == "known" and not known:
                 mode = "unknown"
             it = {"fam": "unary", "src": k, "T": T, "layout": lay, "mode": mode, "divs": divs, "op": cc["op"], "exp": e,
                   "whole": rng.random() < 0.25}
-            if has_index_expr(cc["op"]):
-                it["idxmode"] = "raw" if j % 2 == 0 else "series"
             items.append(it)
     lops = enum["lops"]
     for cc, e in (lops if len(lops) <= n_lops else rng.sample(lops, n_lops)):
@@ -366,7 +424,7 @@ def make_items(ctx, tables, enum, per_pair, n_lops, per_apair):
 
 
 def item_key(item):
-    return [item["fam"], item["src"], item.get("src2"), item["layout"], item.get("layout2"), item["mode"], item.get("idxmode"), item["op"]]
+    return [item["fam"], item["src"], item.get("src2"), item["layout"], item.get("layout2"), item["mode"], item["op"]]
 
 
 def replay_obj(item, rec, clauses):
@@ -374,9 +432,10 @@ def replay_obj(item, rec, clauses):
             "observed": rec["obs"] if rec else None}
 
 
-def check_items(ctx, items, label):
+def check_items(ctx, items, label, pool=None, decide=True):
     """Run the items on dask, let TLC decide.  -> (bad [(rec, item, clauses)], records, skips, guard failures)."""
-    pool, recs, skips, guards = Pool(), [], [], []
+    pool = pool or Pool()
+    recs, skips, guards = [], [], []
     for item, r in zip(items, pmap(_work, items, chunk=16)):
         if "skip" in r:
             skips.append(r["skip"])
@@ -385,7 +444,7 @@ def check_items(ctx, items, label):
         else:
             recs.append((r, item))
             pool.add(r, item)
-    return (pool.decide(ctx, label) if not guards else []), recs, skips, guards
+    return (pool.decide(ctx, label) if (decide and not guards) else []), recs, skips, guards
 
 
 # ----------------------------------------------------------------------------- code -> spec: seeded pipelines
@@ -437,7 +496,7 @@ def gen_bool(rng, num, boolcols, depth=0):
         if k == "isin":
             return {"e": "isin", "x": x, "vals": sorted(rng.sample(range(0, 5), rng.randint(1, 3)))}
         if k == "idx":
-            return {"e": "bin", "f": rng.choice(["lt", "le", "gt", "ge", "ne"]), "l": {"e": "idx"}, "r": {"e": "const", "v": rng.randint(0, 4)}}
+            return {"e": "bin", "f": rng.choice(["lt", "le", "gt", "ge", "ne"]), "l": {"e": rng.choice(["idx", "idxs", "idxs"])}, "r": {"e": "const", "v": rng.randint(0, 4)}}
         return {"e": k, "x": x}
     if r < 0.62:
         return {"e": "not", "x": gen_bool(rng, num, boolcols, depth + 1)}
@@ -527,7 +586,7 @@ def gen_program(rng, pid):
             divs = firsts + [idx[-1]]
         else:
             mode = "unknown"
-    steps, cur = [], T
+    steps, cur, shapes = [], T, []
     want = rng.randint(2, 5)
     tries = 0
     while len(steps) < want and tries < 30:
@@ -537,11 +596,11 @@ def gen_program(rng, pid):
         if "raised" in ref or not fits(ref):
             continue
         steps.append(op)
+        shapes.append([ref["ser"], ref["cols"]])
         cur = ref
         if ref["ser"]:
             break
-    return {"pid": pid, "T": T, "layout": layout, "mode": mode, "divs": divs, "steps": steps,
-            "idxmode": rng.choice(["series", "series", "raw"])}
+    return {"pid": pid, "T": T, "layout": layout, "mode": mode, "divs": divs, "steps": steps, "shapes": shapes}
 
 
 def run_program(prog):
@@ -552,11 +611,11 @@ def run_program(prog):
         x = build(prog["T"], prog["layout"], prog["mode"], prog["divs"], ("p", prog["pid"]))
         inp = prog["T"]
         for i, op in enumerate(prog["steps"]):
-            item = {"fam": "unary", "src": "prog", "T": inp, "layout": [], "mode": prog["mode"], "op": op, "idxmode": prog["idxmode"],
-                    "prog": {k: prog[k] for k in ("pid", "T", "layout", "mode", "divs", "steps", "idxmode")}, "upto": i + 1}
+            item = {"fam": "unary", "src": "prog", "T": inp, "layout": [], "mode": prog["mode"], "op": op,
+                    "prog": {k: prog[k] for k in ("pid", "T", "layout", "mode", "divs", "steps", "shapes")}, "upto": i + 1}
             try:
                 with time_limit(60):
-                    x = apply_op(x, op, lazy=True, idxmode=prog["idxmode"])
+                    x = apply_op(x, op, lazy=True)
                     obs = observe(x, whole=False)
             except NotImplementedError:
                 return
@@ -565,8 +624,8 @@ def run_program(prog):
                     return
                 obs = raised_obs(ex)
             out.append(({"fam": "unary", "inp": inp, "inp2": 0, "layout": [], "op": op, "order": "seq", "obs": obs}, item))
-            if obs["raised"] or obs["ser"]:
-                return
+            if obs["raised"] or obs["ser"] or [obs["ser"], obs["cols"]] != prog["shapes"][i]:
+                return        # the later steps were generated for the reference's columns: this step is judged, the rest dropped
             nxt = {"ser": False, "err": False, "cols": obs["cols"], "kinds": obs["kinds"], "rows": obs["rows"]}
             if not fits(nxt, 98) or any(v == BAD for r in nxt["rows"] for v in r["v"]):
                 return
@@ -584,8 +643,14 @@ def report(ctx, bad):
         ctx.violation(classify(item, clauses), what, replay_obj(item, rec, clauses))
 
 
+def quiet():
+    import warnings
+    warnings.simplefilter("ignore")       # meta-inference and pandas reindexing warnings of the code under test
+
+
 def run(ctx):
     dd()
+    quiet()
     import dask
     dask.config.set({"temporary-directory": ctx.scratch})
     tables, nu, pairs = sources(ctx)
@@ -593,20 +658,20 @@ def run(ctx):
     nlay = sum(len(v) for v in enum["layouts"].values())
     ctx.extra["cases_enumerated_by_tlc"] = {"operations_on_sources": len(enum["ops"]), "layout_dependent": len(enum["lops"]),
                                             "layouts": nlay, "aligned": len(enum["aligned"])}
-    items = make_items(ctx, tables, enum, per_pair=ctx.pick(3, 24), n_lops=ctx.pick(500, 12000), per_apair=ctx.pick(8, 120))
-    bad, recs, skips, guards = check_items(ctx, items, "spec->code:observations")
+    items = make_items(ctx, tables, enum, per_pair=ctx.pick(3, 16), n_lops=ctx.pick(500, 6000), per_apair=ctx.pick(8, 80))
+    pool = Pool()
+    _, recs, skips, guards = check_items(ctx, items, "", pool, decide=False)
     if guards:
         raise MachineryError("the TLA+ reference disagrees with pandas on %d cases, e.g. %s: %s"
                              % (len(guards), json.dumps(guards[0][0]["op"]), guards[0][1][:600]))
-    progs = [gen_program(ctx.rng, i) for i in range(ctx.pick(260, 5000))]
-    pool = Pool()
+    progs = [gen_program(ctx.rng, i) for i in range(ctx.pick(260, 3000))]
     nsteps = 0
     for prog_recs in pmap(run_program, progs, chunk=8):
         for rec, item in prog_recs:
             pool.add(rec, item)
             nsteps += 1
             ctx.count(("prog", item["prog"]["pid"], item["upto"]), bool(rec["obs"]["rows"]))
-    bad += pool.decide(ctx, "code->spec:pipeline-steps")
+    bad = pool.decide(ctx, "observations:spec->code replay + code->spec pipeline steps")
     for s in skips:
         ctx.skip(s)
     for rec, item in recs:
@@ -630,6 +695,7 @@ def run(ctx):
 # ----------------------------------------------------------------------------- replay
 def replay(ctx, obj):
     dd()
+    quiet()
     c = obj["case"]
     item = c["item"]
     pool = Pool()
@@ -650,5 +716,122 @@ def replay(ctx, obj):
 
 
 # ----------------------------------------------------------------------------- selftest
+_MUTANTS = {}
+
+
+def _work_tagged(pair):
+    """selftest worker: run one item on the unmutated code or under the in-memory mutant named by its tag."""
+    from ..divisions import patched_attr
+    tag, item = pair
+    if tag in _MUTANTS:
+        targets, attr, mut = _MUTANTS[tag]
+        with patched_attr(targets, attr, mut):
+            return _work(item)
+    return _work(item)
+
+
 def selftest(ctx):
-    raise MachineryError("selftest not built yet")
+    """Binding demonstration with ONE case enumeration and ONE TLC validation run: a small case set is executed on the
+    unmutated code and under each in-memory mutant of the anchored dask functions; all records (tagged) plus
+    corrupted copies of a genuine record go to TLC together."""
+    from ..divisions import mutate, patched_attr as patched
+    dd()
+    quiet()
+    import dask.dataframe.dask_expr._expr as ex
+    from dask.utils import M
+    tables, nu, pairs = sources(ctx)
+    keep = [0, 2, 6]                                     # three unary sources ...
+    sel_pairs = pairs[:3]                                # ... and three operand pairs
+    small = [tables[i] for i in keep]
+    newpairs = []
+    for l, r in sel_pairs:
+        small += [tables[l - 1], tables[r - 1]]
+        newpairs.append([len(small) - 1, len(small)])
+    enum = enumerate_cases(ctx, small, len(keep), newpairs, 3, label="selftest:design+cases")
+    items = make_items(ctx, small, enum, per_pair=1, n_lops=60, per_apair=4)
+    pool = Pool()
+    counts = {}
+
+    def opk(*kinds):
+        return lambda it: it["op"]["op"] in kinds
+
+    def mentions(test):
+        """items whose operation contains a sub-expression satisfying `test`"""
+        def walk(x):
+            return isinstance(x, dict) and (test(x) or any(walk(x[k]) for k in ("l", "r", "x", "p") if k in x))
+        return lambda it: it["op"]["op"] == "amask" and test({"e": "mask"}) or any(walk(it["op"][f]) for f in ("x", "p") if f in it["op"])
+
+    head_prop = vars(ex.Head)["_partitions"]
+    mutants = [
+        ("Expr.__rsub__: operands swapped (scalar - frame computed as frame - scalar)", [ex.Expr], "__rsub__",
+         mutate(vars(ex.Expr)["__rsub__"], "Sub(other, self)", "Sub(self, other)"),
+         mentions(lambda x: x.get("e") == "bin" and x.get("f") == "sub" and x["l"].get("e") == "const")),
+        ("Head._partitions: one partition too few for head(n, npartitions=k)", [ex.Head], "_partitions",
+         property(mutate(head_prop.fget, 'partitions[: self.operand("npartitions")]', 'partitions[: self.operand("npartitions") - 1]')), opk("head")),
+        ("Mask.operation: mask evaluated as where (wrong kernel)", [ex.Mask], "operation", M.where, mentions(lambda x: x.get("e") == "mask")),
+        ("assign(): assignment to an EXISTING column silently dropped", [ex.Assign], "operation",
+         staticmethod(mutate(ex.assign, "df[name] = val", "df[name] = val if name not in df.columns else df[name]")), opk("assign", "aassign")),
+        ("calc_divisions_for_align: divisions of the first operand only (the other operand's range ignored)", [ex], "calc_divisions_for_align",
+         mutate(ex.calc_divisions_for_align, "divisions = list(unique(merge_sorted(*[df.divisions for df in dfs])))",
+                "divisions = list(dfs[0].divisions)"), lambda it: it["fam"] == "aligned" and it["mode"] != "unknown"),
+    ]
+    tagged = [("baseline", it) for it in items]
+    for name, targets, attr, mut, select in mutants:
+        _MUTANTS[name] = (targets, attr, mut)
+        tagged += [(name, it) for it in items if select(it)]
+    try:
+        results = pmap(_work_tagged, tagged, chunk=32)
+    finally:
+        _MUTANTS.clear()
+    for (tag, item), r in zip(tagged, results):
+        if "guard" in r:
+            raise MachineryError("reference guard failed in selftest: %s" % r["guard"][:300])
+        if "skip" not in r:
+            pool.add(r, item, tag)
+            counts[tag] = counts.get(tag, 0) + 1
+    # corrupted records: a genuine observation with one field damaged must be rejected
+    base = next(it for it in items if it["fam"] == "unary" and it["op"]["op"] == "filter" and len(it["exp"]["rows"]) >= 2 and not it["exp"]["err"])
+    good = run_item(base)
+    o = good["obs"]
+    rows = o["rows"]
+    variants = {
+        "genuine": good,
+        "two rows swapped": dict(good, obs=dict(o, rows=[rows[1], rows[0]] + rows[2:])),
+        "last row dropped (event lost)": dict(good, obs=dict(o, rows=rows[:-1])),
+        "one cell changed": dict(good, obs=dict(o, rows=[dict(rows[0], v=[rows[0]["v"][0] + 1] + rows[0]["v"][1:])] + rows[1:])),
+        "an index label changed": dict(good, obs=dict(o, rows=[dict(rows[0], idx=rows[0]["idx"] + 1)] + rows[1:])),
+        "column order changed": dict(good, obs=dict(o, cols=o["cols"][::-1])),
+        "dtype class changed": dict(good, obs=dict(o, kinds=["f"] + o["kinds"][1:])),
+        "Series reported for a DataFrame": dict(good, obs=dict(o, ser=True)),
+    }
+    for name, rec in variants.items():
+        pool.add(rec, base, "record:" + name)
+    bytag = {}
+    for rec, item, clauses in pool.decide(ctx, "selftest"):
+        tag = next(k for k, members in pool.members.items() if any(m[0] is rec for m in members))
+        tag = json.loads(next(key for key, uid in pool.uniq.items() if uid == tag)).get("tag", "")
+        if tag.startswith("record:"):
+            bytag.setdefault(tag, {})[str(clauses)] = 1
+            continue
+        sig = classify(item, clauses)
+        if sig not in ctx.known:
+            d = bytag.setdefault(tag, {})
+            d[sig] = d.get(sig, 0) + 1
+    ok = True
+    basev = bytag.get("baseline", {})
+    print("selftest C36 baseline (unmutated code, %d cases): violations outside known findings %s -> %s"
+          % (counts["baseline"], basev, "ok" if not basev else "UNEXPECTED"))
+    ok &= not basev
+    for name, *_ in mutants:
+        got = bytag.get(name, {})
+        print("selftest C36 mutant [%s] (%d cases): %s -> %s" % (name, counts.get(name, 0), dict(list(got.items())[:3]), "DETECTED" if got else "MISSED"))
+        ok &= bool(got)
+    acc = "record:genuine" not in bytag
+    print("selftest C36 trace: genuine record accepted -> %s" % ("ok" if acc else "UNEXPECTED %s" % bytag.get("record:genuine")))
+    ok &= acc
+    for name in list(variants)[1:]:
+        got = bytag.get("record:" + name)
+        print("selftest C36 corrupted record [%s]: %s" % (name, "REJECTED %s" % list(got) if got else "ACCEPTED (missed)"))
+        ok &= bool(got)
+    print("selftest C36: %s" % ("all binding demonstrations hold" if ok else "FAILED"))
+    return 0 if ok else 1
